@@ -87,3 +87,86 @@ package eval
 //@ func MakePipelineError
 //@   trusted
 //@   pure
+
+// ---------------------------------------------------------------------------
+// C11 / C12: arithmetic. The harnesses verifAdd2 ... (zz_verif_harness.go) call
+// the real builtins with one or two arguments; UnifyNums and the accumulation
+// loops are inlined and unrolled completely. Exact results are compared with
+// mathematical integers through the ghost value of *big.Int (bigval);
+// inexact results with the IEEE-754 operations of the SMT floating-point theory.
+
+//@ spec fn fits(x mathint) bool = MinInt <= x && x <= MaxInt
+//@ spec fn isint(v any) bool = istype(v, int)
+//@ spec fn isflt(v any) bool = istype(v, float64)
+// the exact integer denoted by a result: an int, or a *big.Int outside the int range
+//@ spec fn exactint(v any, x mathint) bool = fits(x) ? (istype(v, int) && v.(int) == x) : (istype(v, *big.Int) && bigval(v.(*big.Int)) == x)
+//@ spec fn bigint_is(v any, x mathint) bool = istype(v, *big.Int) && bigval(v.(*big.Int)) == x
+
+//@ func add
+//@   inline
+//@   loop 1 unroll 2
+//@   loop 2 unroll 2
+//@   loop 3 unroll 2
+//@ func mul
+//@   inline
+//@   loop 1 unroll 2
+//@   loop 2 unroll 2
+//@   loop 3 unroll 2
+//@   loop 4 unroll 2
+//@ func sub
+//@   inline
+//@   loop 1 unroll 2
+//@   loop 2 unroll 2
+//@   loop 3 unroll 2
+//@ func div
+//@   inline
+//@   loop 1 unroll 2
+//@   loop 2 unroll 2
+//@   loop 3 unroll 2
+
+//@ func verifAdd2
+//@   props C11 C12
+//@   nosafety
+//@   ensures [int-exact-canonical] isint(a) && isint(b) ==> exactint(result, a.(int) + b.(int))
+//@   ensures [float-ieee] isflt(a) && isflt(b) ==> isflt(result) && result.(float64) === (tofloat(0) + a.(float64)) + b.(float64)
+//@   ensures [int-float] isint(a) && isflt(b) ==> isflt(result) && result.(float64) === (tofloat(0) + tofloat(a.(int))) + b.(float64)
+//@   ensures [float-int] isflt(a) && isint(b) ==> isflt(result) && result.(float64) === (tofloat(0) + a.(float64)) + tofloat(b.(int))
+
+//@ func verifMul2
+//@   props C11 C12
+//@   nosafety
+//@   ensures [int-exact-canonical] isint(a) && isint(b) ==> exactint(result, a.(int) * b.(int))
+//@   ensures [float-ieee] isflt(a) && isflt(b) ==> isflt(result) && result.(float64) === (tofloat(1) * a.(float64)) * b.(float64)
+//@   ensures [exact-zero-times-finite] isint(a) && a.(int) == 0 && isflt(b) && !isinf(b.(float64)) ==> isint(result) && result.(int) == 0
+
+//@ func verifSub2
+//@   props C11 C12
+//@   nosafety
+//@   results r err
+//@   ensures [int-exact] isint(a) && isint(b) ==> err == nil && bigint_is(r, a.(int) - b.(int))
+//@   ensures [float-ieee] isflt(a) && isflt(b) ==> err == nil && isflt(r) && r.(float64) === a.(float64) - b.(float64)
+
+//@ func verifSub1
+//@   props C11 C12
+//@   nosafety
+//@   results r err
+//@   ensures [int-negate] isint(a) ==> err == nil && bigint_is(r, 0 - a.(int))
+//@   ensures [float-negate] isflt(a) ==> err == nil && isflt(r) && r.(float64) === -a.(float64)
+
+//@ func verifDiv2
+//@   props C11 C12
+//@   nosafety
+//@   results r err
+//@   ensures [exact-zero-divisor] isint(b) && b.(int) == 0 ==> err != nil
+//@   ensures [int-exact] isint(a) && isint(b) && b.(int) != 0 && a.(int) != 0 ==> err == nil && istype(r, *big.Rat) && rat_eq_frac(r.(*big.Rat), a.(int), b.(int))
+//@   ensures [exact-zero-dividend] isint(a) && a.(int) == 0 && isint(b) && b.(int) != 0 ==> err == nil && isint(r) && r.(int) == 0
+//@   ensures [float-ieee] isflt(a) && isflt(b) ==> err == nil && isflt(r) && r.(float64) === a.(float64) / b.(float64)
+
+//@ func verifDiv1
+//@   props C11 C12
+//@   nosafety
+//@   results r err
+//   "/ $y" is "/ 1 $y": an exact zero must be rejected like any other zero divisor
+//@   ensures [exact-zero-divisor] isint(a) && a.(int) == 0 ==> err != nil
+//@   ensures [int-reciprocal] isint(a) && a.(int) != 0 ==> err == nil && istype(r, *big.Rat) && rat_eq_frac(r.(*big.Rat), 1, a.(int))
+//@   ensures [float-reciprocal] isflt(a) ==> err == nil && isflt(r) && r.(float64) === tofloat(1) / a.(float64)
